@@ -1,6 +1,7 @@
 import Pamqp.Spec.Defs
 import Pamqp.Model.Api
 import Pamqp.Props.TieA
+import Pamqp.Proofs.ApiLemmas
 /-!
 # C16 — codec calls are independent of history and of concurrent callers
 The API model's only state is the legacy switch. That the Python code has no other state is the
@@ -21,7 +22,11 @@ def flagsBefore : Bool → List Api.Op → List Bool
 /-- any history: each call's result is the one it gives in a fresh interpreter with the same switch -/
 theorem C16_history (cat : Cat) (s : Api.State) (ops : List Api.Op) :
     Api.run cat s ops = (List.zip (flagsBefore s.legacy ops) ops).map (fun p => evalOp cat p.1 p.2) := by
-  sorry
+  induction ops generalizing s with
+  | nil => rfl
+  | cons op ops ih =>
+    rw [Proofs.ApiLemmas.run_cons, ih]
+    cases op <;> rfl
 
 def isToggle : Api.Op → Bool
   | .toggle _ => true
@@ -31,11 +36,18 @@ def isToggle : Api.Op → Bool
 of several callers' sequences gives each call the same result -/
 theorem C16_schedule (cat : Cat) (s : Api.State) (ops : List Api.Op) (h : ops.all (fun o => !isToggle o) = true) :
     Api.run cat s ops = ops.map (evalOp cat s.legacy) := by
-  sorry
+  induction ops generalizing s with
+  | nil => rfl
+  | cons op ops ih =>
+    rw [List.all_cons, Bool.and_eq_true] at h
+    have hs : (Api.step cat s op).1 = s :=
+      Proofs.ApiLemmas.step_fst_of_not_toggle cat s op (by intro arg he; rw [he] at h; simp [isToggle] at h)
+    rw [Proofs.ApiLemmas.run_cons, hs, ih s h.2]
+    rfl
 
 /-- failed decodes leave no trace: the state after any non-toggle call is unchanged -/
 theorem C16_no_trace (cat : Cat) (s : Api.State) (op : Api.Op) (h : isToggle op = false) :
     (Api.step cat s op).1 = s := by
-  sorry
+  exact Proofs.ApiLemmas.step_fst_of_not_toggle cat s op (by intro arg he; rw [he] at h; simp [isToggle] at h)
 
 end Pamqp.Props
